@@ -160,14 +160,16 @@ def run(tier):
     R = Report('C02', tier)
     L = ctx.lib()
     Ns = [2, 4, 8, 16] if tier == 'quick' else [2, 4, 8, 16, 32]
-    dims = [1, 2, 3] if tier == 'quick' else [1, 2, 3, 4, 5]
-    sizes = [0, 1, 2, 3] if tier == 'quick' else [0, 1, 2, 3, 4, 6]
+    rdims = [1, 2, 3] if tier == 'quick' else [1, 2, 3, 5]
+    cdims = [1, 2, 3, 4, 5, 6] if tier == 'quick' else [1, 2, 3, 4, 5, 6, 7, 9]
+    asizes = [0, 1, 2, 3] if tier == 'quick' else [0, 1, 2, 3, 4, 6]
+    rsizes = [0, 1, 2, 3, 4, 5, 6] if tier == 'quick' else [0, 1, 2, 3, 4, 5, 6, 7, 8, 10]
     nlay = napp = neq = ncmp = 0
     for cpu in ('accel', 'generic'):
         badP = badA = badE = None
         for N in Ns:
             cn = Canon()
-            for nrows, ncols in itertools.product(dims, dims):
+            for nrows, ncols in itertools.product(rdims, cdims):
                 try:
                     lay, err = derive_layout(L, N, nrows, ncols, cpu, cn)
                 except (Unsupported, NeedEnum) as e:
@@ -177,8 +179,10 @@ def run(tier):
                 if err:
                     badP = badP or ({'N': N, 'nrows': nrows, 'ncols': ncols}, err)
                     continue
-                for a_size, res_size in itertools.product(sizes, sizes):
-                    if tier == 'quick' and N == 16 and (a_size > 2 or res_size > 2) and nrows * ncols > 4:
+                for a_size, res_size in itertools.product(asizes, rsizes):
+                    if tier == 'quick' and (N == 16 or N == 2) and (a_size > 2 or nrows > 2):
+                        continue
+                    if tier == 'quick' and N == 4 and a_size == 3:
                         continue
                     sh = {'N': N, 'nrows': nrows, 'ncols': ncols, 'a_size': a_size, 'res_size': res_size}
                     try:
@@ -210,10 +214,10 @@ def run(tier):
             else:
                 R.ob(rule, subj, 'holds')
     R.evaluations = nlay + napp + neq
-    R.floor('layouts derived from the producer', nlay, 60)
-    R.floor('apply instantiations compared with the bilinear definition', napp, 800)
+    R.floor('layouts derived from the producer', nlay, 120)
+    R.floor('apply instantiations compared with the bilinear definition', napp, 2000)
     R.floor('entry-point equivalence instantiations', neq, 200)
-    R.floor('stored values compared', ncmp, 9000)
+    R.floor('stored values compared', ncmp, 30000)
     R.extra['values_compared'] = ncmp
     R.rules.append('evaluation = one (N, nrows, ncols[, a_size, res_size]) instantiation in value mode')
     R.assumptions += ['the forward transform itself (that its values are the DFT of the polynomial) is C06; here only that prepare '
